@@ -482,7 +482,9 @@ def mod(x, y, out=None, out_like=None, sizing='optimal', method='raw', **kwargs)
         return x % y
     def _mod_raw(x, y, n_frac):
         precision_cast = (lambda m: np.array(m, dtype=object)) if n_frac >= _n_word_max else (lambda m: m)
-        return (x.val * precision_cast(2**(n_frac - x.n_frac))) % (y.val * precision_cast(2**(n_frac - y.n_frac)))
+        # bits of the operands (as signed) aligned to the fractional size of the result
+        x_val, y_val = _raw_operands(x, y, max(x.n_word - x.n_frac, y.n_word - y.n_frac) + max(n_frac, x.n_frac, y.n_frac) + 1)
+        return (x_val * precision_cast(2**(n_frac - x.n_frac))) % (y_val * precision_cast(2**(n_frac - y.n_frac)))
 
     if not isinstance(x, Fxp):
         x = Fxp(x)
